@@ -18,9 +18,22 @@
        environment acting at any moment.
    That the real goroutines behave like the model is the correspondence checked by the harness
    (outcomes: CloseRun.run_c07; recorded yield-point traces: CloseRun.accepts). *)
-From Scrapli Require Import Conc Close CloseDefs CloseLemmas CloseRun.
+From Scrapli Require Import Conc Close CloseDefs CloseLemmas CloseRun GeneratedSkel CloseSkel CloseSkelOk.
 From Coq Require Import List Arith Bool NArith.
 Import ListNotations.
+
+(* ---------- the model carries the source's synchronisation statements ---------- *)
+
+(* For every Go function the model transcribes (Channel.read, Channel.Read, Channel.Close,
+   Transport.read, Transport.Close, netconf Driver.Close, Driver.read, sendRPC with its polling
+   goroutine, System.getFd / setFd / Read / Close) the ordered list of synchronisation statements
+   re-extracted from /repo on this run (GeneratedSkel.sync_skeleton) equals the list computed from
+   the instructions of the model's graphs, and every labelled program point of every graph is one
+   of those statements. *)
+Theorem C07_model_matches_source :
+  (forallb check_entry expected = true /\ all_functions_expected = true) /\
+  (all_covered = true /\ system_copies_agree = true).
+Proof. exact (conj skeleton_matches skeleton_covers). Qed.
 
 (* ---------- fixed code ---------- *)
 
@@ -176,6 +189,7 @@ Proof.
   split; [exact old_netconf_close_blocks_forever|exact old_netconf_second_close_blocks_forever].
 Qed.
 
+Print Assumptions C07_model_matches_source.
 Print Assumptions C07_no_panic.
 Print Assumptions C07_close_never_stuck.
 Print Assumptions C07_transport_closed.
